@@ -26,7 +26,9 @@ RULE = ('case = seeded tree + consistent layout + 2..12 simultaneous mutations '
         '+ verified sub-path + handler policy {always False, always True, None, mixed '
         'by path hash} + permuted os.walk enumeration order; library and CLI (-k). '
         'stress = many strays under a lowered RLIMIT_NOFILE; loop = a directory '
-        'symlink loop next to discrepancies. Non-trivial = >= 2 offending paths; '
+        'symlink loop next to discrepancies; structural = `verify -k` on a loop / '
+        'conflicting entries / -x crossing, alone and next to a clean tree; big = <= 150 '
+        'files with 5..40 mutations. Non-trivial = >= 2 offending paths; '
         'distinct = hash of the materialised case.')
 ANCHORS = ['recursiveloader:ManifestRecursiveLoader.assert_directory_verifies',
            'recursiveloader:SubprocessVerifier.__call__',
